@@ -144,33 +144,65 @@ end
 
 /-! ## ghost provenance: untainted = meaning, for all systems -/
 
-/-- ghost-clean cache: untainted entries are the meaning -/
+/-- nodes stored under the same slot have the same rules (an eternal variable's formula and
+    inputs do not depend on the period it is requested for) -/
+def KeyCoherent (sys : Sys P) : Prop :=
+  ∀ v p p', sys.ckey v p = sys.ckey v p' → sys.formula v p = sys.formula v p' ∧ sys.input v p = sys.input v p'
+
+theorem den_coherent (sys : Sys P) (hk : KeyCoherent sys) {v : Nat} {p p' : P}
+    (h : sys.ckey v p = sys.ckey v p') : ∀ n, den sys n v p = den sys n v p'
+  | 0 => by simp [den]
+  | n+1 => by
+    obtain ⟨h1, h2⟩ := hk v p p' h
+    unfold den
+    rw [h1, h2]
+
+/-- nodes stored under the same slot have the same meaning (semantic form; implied by
+    `KeyCoherent`, and trivially true when every node has its own slot) -/
+def SlotCoherent (sys : Sys P) : Prop :=
+  ∀ v p p', sys.ckey v p = sys.ckey v p' → ∀ n, den sys n v p = den sys n v p'
+
+theorem slotCoherent_of_keyCoherent (sys : Sys P) (hk : KeyCoherent sys) : SlotCoherent sys :=
+  fun v p p' h n => den_coherent sys hk h n
+
+theorem slotCoherent_of_id (sys : Sys P) (hid : ∀ v p, sys.ckey v p = p) : SlotCoherent sys := by
+  intro v p p' h n
+  rw [hid, hid] at h
+  rw [h]
+
+theorem slot_eq_iff (sys : Sys P) (v v' : Nat) (p p' : P) :
+    sys.slot (v', p') = sys.slot (v, p) ↔ v' = v ∧ sys.ckey v' p' = sys.ckey v p := by
+  simp [Sys.slot]
+
+/-- ghost-clean cache: untainted entries are the meaning of every node stored under their slot -/
 def GClean (sys : Sys P) (c : Cache P) : Prop :=
-  ∀ k x, lookup c k = some (x, false) → ∃ n, den sys n k.1 k.2 = some (.ok x)
+  ∀ v p x, lookup c (sys.slot (v, p)) = some (x, false) → ∃ n, den sys n v p = some (.ok x)
 
-theorem gclean_insert (sys : Sys P) {c : Cache P} {v p x g}
+theorem gclean_insert (sys : Sys P) (hk : SlotCoherent sys) {c : Cache P} {v p x g}
     (hc : GClean sys c) (h : g = false → ∃ n, den sys n v p = some (.ok x)) :
-    GClean sys (((v, p), (x, g)) :: c) := by
-  intro k y hk
-  simp only [lookup] at hk
-  split at hk
+    GClean sys ((sys.slot (v, p), (x, g)) :: c) := by
+  intro v' p' y hk'
+  simp only [lookup] at hk'
+  split at hk'
   · rename_i heq
-    cases heq
-    simp only [Option.some.injEq, Prod.mk.injEq] at hk
-    obtain ⟨rfl, rfl⟩ := hk
-    exact h rfl
-  · exact hc k y hk
+    simp only [Option.some.injEq, Prod.mk.injEq] at hk'
+    obtain ⟨rfl, rfl⟩ := hk'
+    obtain ⟨n, hn⟩ := h rfl
+    have hs := (slot_eq_iff sys v' v p' p).1 heq
+    obtain ⟨rfl, hck⟩ := hs
+    exact ⟨n, by rw [← hk v p p' hck n]; exact hn⟩
+  · exact hc v' p' y hk'
 
-theorem gclean_store (sys : Sys P) {c : Cache P} {v p x g}
+theorem gclean_store (sys : Sys P) (hk : SlotCoherent sys) {c : Cache P} {v p x g}
     (hc : GClean sys c) (h : g = false → ∃ n, den sys n v p = some (.ok x)) :
-    GClean sys (store sys c (v, p) x g) := by
+    GClean sys (store sys c (sys.slot (v, p)) x g) := by
   unfold store
   split
   · exact hc
-  · exact gclean_insert sys hc h
+  · exact gclean_insert sys hk hc h
 
 mutual
-theorem run_clean (sys : Sys P) : ∀ n s v p r g s', GClean sys s.cache → run sys n s v p = some (r, g, s') →
+theorem run_clean (sys : Sys P) (hk : SlotCoherent sys) : ∀ n s v p r g s', GClean sys s.cache → run sys n s v p = some (r, g, s') →
     GClean sys s'.cache ∧ (g = false → ∀ x, r = .ok x → ∃ m, den sys m v p = some (.ok x))
   | 0, _, _, _, _, _, _, _, h => by simp [run] at h
   | n+1, s, v, p, r, g, s', hc, h => by
@@ -183,7 +215,7 @@ theorem run_clean (sys : Sys P) : ∀ n s v p r g s', GClean sys s.cache → run
       intro hg y hy
       cases hy
       subst hg
-      exact hc (v, p) x hx
+      exact hc v p x hx
     · split at h
       · rename_i x hin
         simp only [Option.some.injEq, Prod.mk.injEq] at h
@@ -206,28 +238,28 @@ theorem run_clean (sys : Sys P) : ∀ n s v p r g s', GClean sys s.cache → run
               obtain ⟨rfl, rfl, rfl⟩ := h
               have key : ∃ m, den sys m v p = some (.ok (sys.post v (sys.dflt v))) :=
                 ⟨1, by simp [den, hin, hf]⟩
-              refine ⟨gclean_store sys hc (fun _ => key), fun _ y hy => ?_⟩
+              refine ⟨gclean_store sys hk hc (fun _ => key), fun _ y hy => ?_⟩
               cases hy
               exact key
             · rename_i e hf
               split at h
               · cases h
               · rename_i er g1 s1 hr
-                have ih := runE_clean sys n { s with stack := (v, p) :: s.stack } e _ _ _ hc hr
+                have ih := runE_clean sys hk n { s with stack := (v, p) :: s.stack } e _ _ _ hc hr
                 simp only [Option.some.injEq, Prod.mk.injEq] at h
                 obtain ⟨rfl, rfl, rfl⟩ := h
                 exact ⟨ih.1, fun _ y hy => by cases hy⟩
               · rename_i x g1 s1 hr
-                have ih := runE_clean sys n { s with stack := (v, p) :: s.stack } e _ _ _ hc hr
+                have ih := runE_clean sys hk n { s with stack := (v, p) :: s.stack } e _ _ _ hc hr
                 simp only [Option.some.injEq, Prod.mk.injEq] at h
                 obtain ⟨rfl, rfl, rfl⟩ := h
                 have key : g1 = false → ∃ m, den sys m v p = some (.ok (sys.post v x)) := fun hg => by
                   obtain ⟨m, hm⟩ := ih.2 hg x rfl
                   exact ⟨m+1, by simp [den, hin, hf, hm]⟩
-                refine ⟨gclean_store sys ih.1 key, fun hg y hy => ?_⟩
+                refine ⟨gclean_store sys hk ih.1 key, fun hg y hy => ?_⟩
                 cases hy
                 exact key hg
-theorem runE_clean (sys : Sys P) : ∀ n s e r g s', GClean sys s.cache → runE sys n s e = some (r, g, s') →
+theorem runE_clean (sys : Sys P) (hk : SlotCoherent sys) : ∀ n s e r g s', GClean sys s.cache → runE sys n s e = some (r, g, s') →
     GClean sys s'.cache ∧ (g = false → ∀ x, r = .ok x → ∃ m, denE sys m e = some (.ok x))
   | _, s, .const k, r, g, s', hc, h => by
     simp only [runE, Option.some.injEq, Prod.mk.injEq] at h
@@ -239,7 +271,7 @@ theorem runE_clean (sys : Sys P) : ∀ n s e r g s', GClean sys s.cache → runE
     exact ⟨hc, fun _ y hy => by cases hy⟩
   | n, s, .ref v p, r, g, s', hc, h => by
     simp only [runE] at h
-    have := run_clean sys n s v p r g s' hc h
+    have := run_clean sys hk n s v p r g s' hc h
     exact ⟨this.1, fun hg y hy => by
       obtain ⟨m, hm⟩ := this.2 hg y hy
       exact ⟨m, by simp [denE, hm]⟩⟩
@@ -250,7 +282,7 @@ theorem runE_clean (sys : Sys P) : ∀ n s e r g s', GClean sys s.cache → runE
       obtain ⟨rfl, rfl, rfl⟩ := h
       exact ⟨hc, fun _ y hy => by cases hy⟩
     · rename_i ha
-      have := runE_clean sys n s a r g s' hc h
+      have := runE_clean sys hk n s a r g s' hc h
       exact ⟨this.1, fun hg y hy => by
         obtain ⟨m, hm⟩ := this.2 hg y hy
         exact ⟨m, by simp [denE, ha, hm]⟩⟩
@@ -259,12 +291,12 @@ theorem runE_clean (sys : Sys P) : ∀ n s e r g s', GClean sys s.cache → runE
     split at h
     · cases h
     · rename_i er g1 s1 ha
-      have iha := runE_clean sys n s a _ _ _ hc ha
+      have iha := runE_clean sys hk n s a _ _ _ hc ha
       simp only [Option.some.injEq, Prod.mk.injEq] at h
       obtain ⟨rfl, rfl, rfl⟩ := h
       exact ⟨iha.1, fun _ y hy => by cases hy⟩
     · rename_i x g1 s1 ha
-      have iha := runE_clean sys n s a _ _ _ hc ha
+      have iha := runE_clean sys hk n s a _ _ _ hc ha
       simp only [Option.some.injEq, Prod.mk.injEq] at h
       obtain ⟨rfl, rfl, rfl⟩ := h
       refine ⟨iha.1, fun hg z hz => ?_⟩
@@ -276,21 +308,21 @@ theorem runE_clean (sys : Sys P) : ∀ n s e r g s', GClean sys s.cache → runE
     split at h
     · cases h
     · rename_i er g1 s1 ha
-      have iha := runE_clean sys n s a _ _ _ hc ha
+      have iha := runE_clean sys hk n s a _ _ _ hc ha
       simp only [Option.some.injEq, Prod.mk.injEq] at h
       obtain ⟨rfl, rfl, rfl⟩ := h
       exact ⟨iha.1, fun _ y hy => by cases hy⟩
     · rename_i x g1 s1 ha
-      have iha := runE_clean sys n s a _ _ _ hc ha
+      have iha := runE_clean sys hk n s a _ _ _ hc ha
       split at h
       · cases h
       · rename_i er g2 s2 hb
-        have ihb := runE_clean sys n s1 b _ _ _ iha.1 hb
+        have ihb := runE_clean sys hk n s1 b _ _ _ iha.1 hb
         simp only [Option.some.injEq, Prod.mk.injEq] at h
         obtain ⟨rfl, rfl, rfl⟩ := h
         exact ⟨ihb.1, fun _ y hy => by cases hy⟩
       · rename_i y g2 s2 hb
-        have ihb := runE_clean sys n s1 b _ _ _ iha.1 hb
+        have ihb := runE_clean sys hk n s1 b _ _ _ iha.1 hb
         simp only [Option.some.injEq, Prod.mk.injEq] at h
         obtain ⟨rfl, rfl, rfl⟩ := h
         refine ⟨ihb.1, fun hg z hz => ?_⟩
